@@ -96,8 +96,13 @@ def history_to_text(h, fuse=None):
     lines = [f"kind {h['kind']}", f"capacity {h.get('capacity', 0)}"]
     if fuse is not None:
         lines.append(f'fuse {fuse}')
+    if h['kind'] == 'seg':
+        lines.append(f"op domain lo={h['lo']} hi={h['hi']}")
     for op in h['ops']:
-        lines.append('op ' + op['op'] + ''.join(f' {k}={v}' for k, v in op.items() if k != 'op'))
+        d = dict(op)
+        if h['kind'] == 'seg' and d['op'] == 'query':
+            d['full'] = 1 if d.pop('mode', 'full') == 'full' else 0
+        lines.append('op ' + d['op'] + ''.join(f' {k}={v}' for k, v in d.items() if k != 'op'))
     return '\n'.join(lines) + '\n'
 
 
